@@ -1,16 +1,23 @@
 import BoltonsVerif.Common
 import BoltonsVerif.C07.Model
+import BoltonsVerif.C07.Spec
 /-
 C07 line protocol.  One line = one whole navigation history:
     nav <base> <ref> <ref> ...
   every URL is ten comma-separated fields
     scheme,hasAuthority,user,password,host,v6,port,path,query,fragment
+  (an eleventh field `A` on a reference: the object was parsed without its query / fragment, which were then set
+  through the public API, so no query component was ever parsed)
   texts as hex UTF-8 (`-` = empty, `N` = undefined for scheme / query / fragment), flags 0/1, port decimal (0 = none).
 Output: `<base> <after ref 1> ... N <normalize()> <normalize() twice> <normalize(with_case=False)>`
 (the three normalisations are applied to a fresh copy of the base), where a URL with a host is shown as
 `T<to_text()>` and a URL without a host as `C<scheme>|<user>|<password>|<port>|<path>|<query>|<fragment>`
 (how `to_text()` writes an empty authority belongs to property C06 and is not compared here).
-    tables          prints the generated scheme tables back (checked against the live module)
+    parse <hex text> the Appendix B components of a reference text (scheme,authority,path,query,fragment; hex, N =
+                    undefined) and, for a text without scheme and authority, the object `URL(text)`: `P<segments> Q<pairs> F<fragment>`
+                    (decoded path segments joined by `/`, query items `key[=value]` joined by `&`, all hex)
+    tables          prints the generated scheme tables and the generated `navigate` version flag back (checked
+                    against the live module)
 -/
 namespace C07.Driver
 open BV C07
@@ -37,6 +44,20 @@ def parseURL? (tok : String) : Option URL :=
     let qu ← optText? qu
     let fr ← optText? fr
     pure (URL.ofComponents sc au us pw ho v6 po pa qu fr)
+  | [sc, au, us, pw, ho, v6, po, pa, qu, fr, "A"] => do
+    -- a URL object parsed from the text WITHOUT query and fragment, which were then set through the public API
+    -- (`query_params.add`, `.fragment = ...`): no query component was ever parsed (`_query` stays None)
+    let sc ← optText? sc
+    let au ← flag? au
+    let us ← text? us
+    let pw ← text? pw
+    let ho ← text? ho
+    let v6 ← flag? v6
+    let po ← po.toNat?
+    let pa ← text? pa
+    let qu ← optText? qu
+    let fr ← optText? fr
+    pure { URL.ofComponents sc au us pw ho v6 po pa qu fr with hasQuery := false }
   | _ => none
 
 def showU (u : URL) : String :=
@@ -60,7 +81,24 @@ def handle (line : String) : String :=
   match words line with
   | ["tables"] =>
     "P " ++ ",".intercalate (C07.Gen.schemePorts.map fun p => s!"{p.1}:{p.2}") ++
-    " N " ++ ",".intercalate C07.Gen.noNetlocSchemes
+    " N " ++ ",".intercalate C07.Gen.noNetlocSchemes ++
+    " Q " ++ (if C07.Gen.navHonoursEmptyQuery then "1" else "0")
+  | ["parse", h] =>
+    -- a reference text: Appendix B components (Spec) and, when it has neither scheme nor authority, `URL(text)`
+    match hexToString? h with
+    | some t =>
+      let r := rfcParse t.toList
+      let o (x : Option Str) : String := match x with | none => "N" | some v => stringToHex (String.ofList v)
+      let comps := ",".intercalate [o r.scheme, o r.authority, stringToHex (String.ofList r.path), o r.query, o r.fragment]
+      if r.scheme.isNone && r.authority.isNone then
+        let u := URL.ofText t.toList
+        let hx (x : Str) : String := stringToHex (String.ofList x)
+        let raw := "P" ++ "/".intercalate (u.parts.map hx) ++
+          " Q" ++ "&".intercalate (u.query.map fun p => hx p.1 ++ (match p.2 with | none => "" | some v => "=" ++ hx v)) ++
+          " F" ++ hx u.fragment
+        comps ++ " " ++ raw
+      else comps ++ " -"
+    | none => "bad-op"
   | "nav" :: b :: refs =>
     match parseURL? b, parseAll? refs with
     | some base, some dests =>
